@@ -25,6 +25,7 @@
   is `crOK t`: every CR is immediately followed by LF.
 -/
 import ICal.Lemmas.Rewrite
+import ICal.Lemmas.BodiesParse
 namespace ICal.C09
 
 /-! ## 1. LF instead of CR LF -/
@@ -292,5 +293,21 @@ example : [Rewrite.insertFold 3 .lfHt, .crlfToLf, .addBlankLF, .addBOM, .addBlan
 example : applyAll [Rewrite.insertFold 3 .crlfSp, .crlfToLf, .addBOM, .addBlank] ['A', ':', 'x', 'y', CR, LF] =
     [BOM, 'A', ':', 'x', LF, SP, 'y', LF, CR, LF] := by
   decide
+
+/-! ## the regenerated `Component.from_ical` (ICal/Gen/BodiesParse.lean, rewritten from cal.py by tools/py2lean.py on every run) -/
+
+/-- what the caller sees of the translated function is `parseText`, of which `parse_invariant` speaks -/
+theorem body_parseText (tzok : Comp → Bool) (dec : Dec) (multiple : Bool) (st : Str) :
+    Bodies.fromIcalTrees tzok dec multiple st = parseText tzok dec multiple st :=
+  Bodies.fromIcalTrees_parseText tzok dec multiple st
+
+/-- `parse_invariant` on the translated function -/
+theorem body_parse_invariant (tzok : Comp → Bool) (dec : Dec) (m : Bool) (ls : List Str) (ps : List PhysLine)
+    (rs : List Rewrite)
+    (hls : ∀ l ∈ ls, WFLine l) (hps : ∀ p ∈ ps, p.ok)
+    (hcv : Pointwise CaseVariant ls (ps.map PhysLine.logical))
+    (hc : rs.countP Rewrite.isBOM ≤ 1) :
+    Bodies.fromIcalTrees tzok dec m (applyAll rs (physText ps)) = Bodies.fromIcalTrees tzok dec m (body ls) := by
+  rw [body_parseText, body_parseText]; exact parse_invariant tzok dec m ls ps rs hls hps hcv hc
 
 end ICal.C09
